@@ -62,6 +62,12 @@ def leaf(n):
         if k == "fixed" and int.from_bytes(b"\x7f" * n["size"], "big") < 10 ** (n.get("precision") or 0):
             raw.append(b"\x7f" * n["size"])  # only where the declared precision can hold it
         return vals + raw
+    if n.get("logical") == "uuid" and k == "string":
+        import uuid
+
+        # UUID objects, and strs in several spellings of a UUID (a str is written as it is)
+        return [uuid.UUID("12345678-1234-4234-9234-123456789abc"), uuid.UUID(int=0), "12345678-1234-4234-9234-123456789ABC", "{12345678-1234-4234-9234-123456789abc}",
+                "urn:uuid:12345678-1234-4234-9234-123456789abc", "12345678123442349234123456789abc"]
     if n.get("logical") == "date" and k == "int":
         import datetime
 
